@@ -15,7 +15,7 @@ n=$1; w=/tmp/fix-$n
 mkdir -p $w
 git -C /repo  worktree add -q -b fix-$n $w/repo  HEAD
 git -C /verif worktree add -q -b fix-$n $w/verif HEAD
-rsync -a /verif/lean/.lake/ $w/verif/lean/.lake/
+rsync -a /verif/lean/.lake/ $w/verif/lean/.lake/ || true   # files of a running build may vanish
 sed -i "s#\"/repo/#\"$w/repo/#g" $w/verif/harness/Cargo.toml
 git -C $w/verif update-index --assume-unchanged harness/Cargo.toml
 echo "ready $w  (run checks with: cd $w/verif && S3V_REPO=$w/repo bin/check <Cnn> quick)"
